@@ -21,7 +21,7 @@ try:
     r = subprocess.run([os.path.join(os.path.dirname(os.path.abspath(__file__)), "..", "check"), prop] + extra, env=env,
                        stdout=subprocess.PIPE, stderr=subprocess.STDOUT, text=True)
     lines = [l for l in r.stdout.splitlines() if l.startswith(("VIOLATION", "UNDECIDED", "PROOF-DEGRADED", "KNOWN", prop))]
-    print("\n".join(l[:260] for l in lines[:12]))
+    print("\n".join(l[:260] for l in lines[:40]))
     print("exit", r.returncode)
 finally:
     subprocess.run(["git", "-C", "/repo", "worktree", "remove", "--force", wt], stdout=subprocess.DEVNULL, stderr=subprocess.DEVNULL)
